@@ -9,6 +9,9 @@ def run(P, R, L):
              "value is only returned after the helper ran; when a child iterator runs out the two-level iterators move on to the "
              "next block / file; seek* record the matching direction")
     K.pair7_direction(P, R, L)
+    R.clause("PAIR-11", "the loader of a two-level iterator re-uses the child iterator (cursor included) when the block / file is unchanged, so "
+             "after every successful init_data_block / set_table_iter the child is positioned explicitly in the method's direction")
+    K.pair11_loaded_child_positioned(P, R, L)
     R.clause("PAIR-8", "a change of direction repositions the underlying iterator before the search for the next visible entry (DatabaseIterator), "
              "and the merging iterator steps its current child before choosing and re-seeks the others")
     K.pair8_reversal(P, R, L)
